@@ -8,7 +8,7 @@ from vf.ref import recheck as refcheck
 
 ID = "C13"
 LEVEL = "exploration"
-TECHNIQUE = "Hypothesis-generated scattered sources (1..3 torrents over 1..3 search directories at depths 0..3, decoys, unrelated files, harness-owned enumeration order) rebuilt into a fresh destination; oracle: independent reference verification of the destination, presence/length of every listed file, returned count"
+TECHNIQUE = "Hypothesis-generated scattered sources (1..3 torrents over 1..3 search directories at depths 0..3, decoys, unrelated files, harness-owned enumeration order) rebuilt into a fresh destination; oracle: independent reference verification of the destination, presence/length of every listed file, returned count ; decoys that agree with the real file in some pieces; destination reached through a symlink"
 RULE = ("Cases: 1..3 torrents (tree of non-zero bytes x P x creator incl. v1, v2, hybrid; own default metafiles) whose files are scattered "
         "under their own names over 1..3 search directories at drawn depths, next to unrelated files and decoys (same name, same size, "
         "every byte different, or agreeing with the real file in its first piece / its tail / all but one byte) with the directory enumeration order forced (sorted / reverse / hashed) so the decoy is met before or "
